@@ -146,6 +146,9 @@ pub fn coefficient_patterns(len: usize) -> Vec<String> {
   v
 }
 
+/// texts that are not finite numbers
+const NOT_NUMBERS: [&str; 12] = ["12,5", "", "abc", "1e", "--1", "1..2", "NaN", "Infinity", "-inf", "1E99999", "0x10", " 1"];
+
 pub fn run() {
   let run = Run::new("C07");
   let thorough = run.thorough();
@@ -156,16 +159,25 @@ pub fn run() {
   let exps: Vec<i32> = (-6176..=6111).collect();
   exps.par_iter().for_each(|&e| {
     for &len in &lengths {
+      // sequences: a text that is not a number is converted first (and must be rejected), the numbers follow on the same
+      // thread - what one conversion leaves behind must not reach the next
+      let not_numbers = NOT_NUMBERS;
+      let before = not_numbers[((e + 6176) as usize + len) % not_numbers.len()];
+      if before.parse::<FeelNumber>().is_ok() {
+        run.violation("not-a-number-accepted", &format!("FeelNumber::from_str accepts `{}`", before), json!({"engine":"c07","sci":"1E0","after_invalid":before,"accepted":true}));
+      }
       for coef in coefficient_patterns(len) {
         for neg in [false, true] {
           let sci = format!("{}{}E{}", if neg { "-" } else { "" }, coef, e);
           let n = match sci.parse::<FeelNumber>() {
             Ok(n) => n,
             Err(_) => {
+              // is it the text itself, or what the rejected text before it left behind?
+              let alone = std::thread::scope(|s| s.spawn(|| sci.parse::<FeelNumber>().is_ok()).join().unwrap_or(false));
               run.violation(
-                "construct-rejected",
-                &format!("the finite decimal128 value {} is rejected by FeelNumber::from_str", sci),
-                json!({"engine":"c07","sci":sci}),
+                if alone { "construct-rejected:after-a-rejected-text" } else { "construct-rejected" },
+                &format!("the finite decimal128 value {} is rejected by FeelNumber::from_str{}", sci, if alone { format!(" after the text `{}` was rejected on the same thread (alone it is accepted)", before) } else { String::new() }),
+                json!({"engine":"c07","sci":sci,"after_invalid":before}),
               );
               continue;
             }
@@ -345,6 +357,12 @@ pub fn replay_case(case: &serde_json::Value) -> String {
   }
   let sci = case.get("sci").and_then(|x| x.as_str()).unwrap_or("");
   let text = sci;
+  if let Some(before) = case.get("after_invalid").and_then(|x| x.as_str()) {
+    let accepted = before.parse::<FeelNumber>().is_ok();
+    if case.get("accepted").is_some() {
+      return if accepted { format!("FAIL FeelNumber::from_str accepts `{}`", before) } else { format!("PASS `{}` is rejected", before) };
+    }
+  }
   let n = match text.parse::<FeelNumber>() {
     Ok(n) => n,
     Err(_) => return format!("FAIL the finite decimal128 value {} is rejected by FeelNumber::from_str", text),
